@@ -60,3 +60,95 @@ def check(run, rule):
     if n_rebinds < 2 or n_pil < 2:
         run.undecided(rule, None, None, "only %d rebinding sites of Image._array and %d stores of Image._pil found (>= 2 each confirmed by hand)" % (n_rebinds, n_pil),
                       kind="floor", construct="<Image representations>", file="toasty/image.py")
+
+
+# ---------------------------------------------------------------------------------------------------------------------
+# What Image.save hands to the array writers is the image's own pixel array
+
+_VIEW_CALLS = {"np.asarray", "np.ascontiguousarray", "np.asanyarray", "np.flipud", "np.atleast_2d"}
+_LOSSY_CALLS = {"np.float32", "np.float16", "np.float64", "np.round", "np.around", "np.rint", "np.clip", "np.nan_to_num", "np.floor", "np.ceil",
+                "np.trunc", "np.abs", "np.int16", "np.int32", "np.uint8", "np.where", "np.maximum", "np.minimum"}
+_LOSSY_METHODS = {"astype", "round", "clip", "byteswap", "view", "filled"}
+
+
+def _own_pixels(t, slf):
+    """'own' if the term is the receiver's pixel array seen through value-preserving views, ('lossy', what) if a conversion
+    of it, None if nothing can be said."""
+    if t == ("call", ("attr", slf, "asarray"), (), ()) or t in (("attr", slf, "_array"), ("attr", slf, "_pil")):
+        return "own"
+    if not isinstance(t, tuple) or not t:
+        return None
+    if t[0] == "new":
+        return _own_pixels(t[2], slf)
+    if t[0] in ("sub", "item"):
+        # a slice / reversed view shows the same values; anything else selects part of the data
+        inner = _own_pixels(t[1], slf)
+        if inner == "own":
+            idx = t[2]
+            parts = idx[1] if isinstance(idx, tuple) and idx and idx[0] == "tuple" else (idx,)
+            ok = all(isinstance(p_, tuple) and (p_ == ("const", Ellipsis) or (p_[0] == "slice" and p_[1] in (("const", None),) and p_[2] in (("const", None),)))
+                     for p_ in parts)
+            return "own" if ok else None
+        return inner
+    if t[0] == "call":
+        name = show(t[1])
+        if name in _VIEW_CALLS and t[2]:
+            return _own_pixels(t[2][0], slf)
+        if name in _LOSSY_CALLS and t[2] and _own_pixels(t[2][0], slf) is not None:
+            return ("lossy", name)
+        if t[1][0] == "attr" and t[1][2] in _LOSSY_METHODS and _own_pixels(t[1][1], slf) is not None:
+            return ("lossy", "." + t[1][2] + "()")
+        return None
+    if t[0] == "ite":
+        a, b = _own_pixels(t[2], slf), _own_pixels(t[3], slf)
+        for x in (a, b):
+            if isinstance(x, tuple):
+                return x
+        return "own" if a == b == "own" else None
+    if t[0] == "poly":
+        # arithmetic on the pixels
+        for a in sym.atoms_of(t):
+            if _own_pixels(a, slf) is not None:
+                return ("lossy", "arithmetic")
+        return None
+    return None
+
+
+def saved_pixels(run, rule):
+    """Image.save in an array format (npy, fits) writes the pixel array itself: whatever reaches np.save / fits.writeto /
+    an HDU constructor as data is `self.asarray()` seen through value-preserving views - not a converted, rounded, clipped or
+    rescaled copy (tiles would no longer read back bit for bit; NaN sentinels could be replaced)."""
+    project = run.project
+    f = project.fn(IMG + ".Image.save")
+    ev = sym.make_evaluator(project, IMG, [])
+    ev.self_class = IMG + ".Image"
+    r = ev.run(f.node)
+    run.note_func(f)
+    slf = ("sym", "self")
+    n = 0
+    for e in r.events:
+        if e.kind != "call":
+            continue
+        name = show(e.term[1])
+        data = None
+        kw = dict((k, v) for k, v in e.term[3] if k != "**")
+        if name in ("np.save", "np.savez", "np.save_compressed") and len(e.term[2]) >= 2:
+            data = e.term[2][1]
+        elif name.endswith("writeto") and (len(e.term[2]) >= 2 or "data" in kw):
+            data = e.term[2][1] if len(e.term[2]) >= 2 else kw["data"]
+        elif name.split(".")[-1] in ("PrimaryHDU", "ImageHDU", "CompImageHDU") and (e.term[2] or "data" in kw):
+            data = e.term[2][0] if e.term[2] else kw["data"]
+        if data is None:
+            continue
+        n += 1
+        v = _own_pixels(data, slf)
+        if v == "own":
+            run.holds(rule, f, e.node, "%s receives the image's own pixel array" % name)
+        elif isinstance(v, tuple):
+            run.violated(rule, f, e.node, "Image.save hands %s a converted copy of the pixels (%s: %s) instead of the array itself: tiles no longer read back "
+                         "with the values that were stored (precision / range / sentinel changes)" % (name, v[1], show(data)[:80]), kind="lossy-save")
+        else:
+            run.undecided(rule, f, e.node, "cannot relate the data written by %s (%s) to the image's pixel array" % (name, show(data)[:80]), kind="saved-data")
+    if n < 2:
+        run.undecided(rule, f, None, "fewer than two array writers (npy, fits) found in Image.save", kind="floor", construct="<saved pixels>", file="toasty/image.py")
+    return n
